@@ -10,7 +10,7 @@ mkdir -p $SCR.out
 for id in $ids; do
   prop=${id%%-*}
   git -C $SCR checkout -q -- . ; git -C $SCR clean -fdq
-  if ! git -C $SCR apply --3way seeded/$id/patch.diff >/dev/null 2>&1; then echo "$id: patch does not apply"; continue; fi
+  if ! git -C $SCR apply --3way /verif/seeded/$id/patch.diff >/dev/null 2>&1; then echo "$id: patch does not apply"; continue; fi
   git -C $SCR reset -q
   extra=$(python3 -c "import json; print(' '.join(json.load(open('seeded/$id/meta.json')).get('also_check', [])))" 2>/dev/null)
   res=""
